@@ -4,6 +4,7 @@
 mod cal;
 mod curve;
 mod fx;
+mod gauss;
 mod named;
 mod numvm;
 mod util;
@@ -23,6 +24,7 @@ fn main() {
         "named" => named::main(&args[1..]),
         "fx" => fx::main(&args[1..]),
         "curve" => curve::main(&args[1..]),
+        "gauss" => gauss::main(&args[1..]),
         "numvm" => numvm::main(&args[1..]),
         other => {
             eprintln!("unknown engine {}", other);
